@@ -75,6 +75,7 @@ def fieldVal (env : Env) (al : Aliases) (nd : Node) (axes : List Key) (coords : 
 
 def jobOut (env : Env) (al : Aliases) (nd : Node) (axes : List Key) (coords : List Nat) : Val :=
   nd.encode (fieldVal env al nd axes coords .x) (fieldVal env al nd axes coords .y) (fieldVal env al nd axes coords .z)
+    (fieldVal env al nd axes coords .u) (fieldVal env al nd axes coords .v)
 
 def upAxes (env : Env) (nd : Node) : Except String (List (Key × Nat)) :=
   nd.lazyUps.foldlM (init := []) fun acc (_, u) =>
